@@ -21,8 +21,12 @@ def toolRunInfoUnconditional : Bool := true
 def lambdaNodeOwnsRunnable : Bool := true
 /-- the parameters of the compose level -/
 def cfacts : EinoV.C10.CFacts := ⟨runHasDeferredBlock, deferStartsIfMissing, wrapperOnErrorAlways, toolRunInfoUnconditional⟩
+/-- `InitCallbacks` always stores a manager (possibly nil) in the returned context -/
+def initInstalls : Bool := true
+/-- a nil manager in the context means "no callbacks": `managerFromCtx` reports none, `On` and `ReuseHandlers` return early -/
+def nilManagerSilent : Bool := true
 /-- the parameters of the unit machine -/
-def facts : EinoV.C10.Facts := ⟨appendHandlersCopies, onCopies, startReversed⟩
+def facts : EinoV.C10.Facts := ⟨appendHandlersCopies, onCopies, startReversed, initInstalls⟩
 /-- the self-firing built-in components report every error / panic path (Model/C10Builtin.lean) -/
 def tplErrDeferred : Bool := true
 def tplStartEndUnconditional : Bool := true
